@@ -2,7 +2,7 @@
 Helper lemmas for C16 (core Lean only).
 -/
 import MxlVerif.Model.C16
-import MxlVerif.Lemmas.C05
+import MxlVerif.Lemmas.C05Keys
 namespace Mxl.C16
 open Mxl.C05
 
@@ -130,6 +130,66 @@ theorem mapSubstratesToLabelmap_involutive (subs : List Slot) (lm : List Nat)
   rw [this]
   have hjl' : lm[q] < subs.length := hd ▸ hjl
   simp [List.getD_eq_getElem?_getD, List.getElem?_eq_getElem hql, List.getElem?_eq_getElem hjl']
+
+/-! ### `_map_labelmap_to_substrates` -/
+
+theorem pickSlots_iff (subs xs : List Slot) (lm : List Nat) (res : List Slot) :
+    pickSlots subs xs lm = .ok res ↔
+      lm.length = xs.length ∧ (∀ p ∈ lm, p < subs.length) ∧ res = documentedSources subs lm := by
+  induction xs generalizing lm res with
+  | nil =>
+    cases lm with
+    | nil => simp [pickSlots, documentedSources, eq_comm]
+    | cons p ps => simp [pickSlots]
+  | cons x xs ih =>
+    cases lm with
+    | nil => simp [pickSlots]
+    | cons p ps =>
+      simp only [pickSlots]
+      by_cases hp : p < subs.length
+      · rw [List.getElem?_eq_getElem hp]
+        simp only []
+        cases hrest : pickSlots subs xs ps with
+        | error e =>
+          simp only [bind, Except.bind, reduceCtorEq, false_iff, not_and]
+          intro hl hall _
+          have := (ih ps (documentedSources subs ps)).mpr
+            ⟨by simpa using hl, fun q hq => hall q (List.mem_cons_of_mem _ hq), rfl⟩
+          rw [hrest] at this; cases this
+        | ok rest =>
+          have hr := (ih ps rest).mp hrest
+          simp only [bind, Except.bind, pure, Except.pure, Except.ok.injEq, List.length_cons,
+            Nat.add_right_cancel_iff, List.mem_cons, forall_eq_or_imp]
+          have hd : documentedSources subs (p :: ps) = subs[p] :: documentedSources subs ps := by
+            simp [documentedSources, List.getD_eq_getElem?_getD, List.getElem?_eq_getElem hp]
+          rw [hd]
+          constructor
+          · rintro rfl
+            exact ⟨hr.1, ⟨hp, hr.2.1⟩, by rw [hr.2.2]⟩
+          · rintro ⟨_, _, rfl⟩
+            rw [hr.2.2]
+      · rw [List.getElem?_eq_none (Nat.le_of_not_lt hp)]
+        simp only [reduceCtorEq, List.mem_cons, forall_eq_or_imp, false_iff, not_and]
+        intro _ h; exact absurd h.1 hp
+
+/-- the fixed mapper reads a map the documented way, and accepts exactly the maps of the padded
+    length whose indices are positions -/
+theorem mapLabelmapToSubstrates_iff (subs : List Slot) (lm : List Nat) (res : List Slot) :
+    mapLabelmapToSubstrates subs lm = .ok res ↔
+      lm.length = subs.length ∧ (∀ p ∈ lm, p < subs.length) ∧ res = documentedSources subs lm :=
+  pickSlots_iff subs subs lm res
+
+theorem mapLabelmapToSubstrates_perm (subs : List Slot) (lm : List Nat) (h : PermMap subs.length lm) :
+    mapLabelmapToSubstrates subs lm = .ok (documentedSources subs lm) :=
+  (mapLabelmapToSubstrates_iff subs lm _).mpr ⟨h.length, h.lt, rfl⟩
+
+/-- for a permutation map the documented sources are a rearrangement of the padded substrate positions -/
+theorem documentedSources_perm (subs : List Slot) (lm : List Nat) (h : PermMap subs.length lm) :
+    (documentedSources subs lm).Perm subs := by
+  have p1 : (lm.map fun i => subs.getD i Slot.ext).Perm
+      ((List.range subs.length).map fun i => subs.getD i Slot.ext) := List.Perm.map _ h
+  rw [map_getD_range] at p1
+  exact p1
 
 /-! ### the right-hand side as a sum over slot pairs -/
 
@@ -586,6 +646,293 @@ theorem position_flux {lv : List (Name × Nat)} {r : BRxn} {lm : List Nat} {rs :
     rw [hone w hw, Rat.one_mul]
 
 
+/-! ### position flux without any restriction on repeated compounds -/
+
+theorem prod_scale_once_key {κ} [DecidableEq κ] (args : List κ) (s : κ) (hc : args.count s = 1)
+    (w x : Rat) (K : κ → Rat) :
+    w * listProd (args.map fun a => if a = s then x else K a)
+      = listProd (args.map fun a => if a = s then w * x else K a) := by
+  induction args with
+  | nil => simp at hc
+  | cons a as ih =>
+    by_cases h : a = s
+    · subst h
+      have h0 : as.count a = 0 := by simpa using hc
+      have hna : ∀ b ∈ as, b ≠ a := by
+        intro b hb e; subst e
+        exact absurd (List.count_pos_iff.mpr hb) (by omega)
+      have e1 : ∀ v : Rat, (as.map fun b => if b = a then v else K b) = as.map K := by
+        intro v; apply List.map_congr_left; intro b hb; simp [hna b hb]
+      simp only [List.map_cons, listProd_cons, if_true, e1]
+      grind
+    · have hc' : as.count s = 1 := by
+        rw [List.count_cons] at hc; simpa [h] using hc
+      simp only [List.map_cons, listProd_cons, if_neg h]
+      rw [← ih hc']; grind
+
+theorem prod_replace_once_key {κ} [DecidableEq κ] (args : List κ) (s : κ) (hc : args.count s = 1)
+    (m : Rat) (K : κ → Rat) :
+    listProd (args.map fun a => if a = s then m else K a) * K s = m * listProd (args.map K) := by
+  have h1 := prod_scale_once_key args s hc (K s) m K
+  have h2 := prod_scale_once_key args s hc m (K s) K
+  have e : (args.map fun a => if a = s then K s else K a) = args.map K := by
+    apply List.map_congr_left; intro a _; by_cases h : a = s <;> simp [h]
+  rw [e] at h2
+  have e2 : (args.map fun a => if a = s then K s * m else K a)
+      = args.map fun a => if a = s then m * K s else K a := by
+    apply List.map_congr_left; intro a _; by_cases h : a = s <;> simp [h]; grind
+  rw [e2] at h1
+  rw [h2, ← h1]; grind
+
+/-- the numbered substrate occurrence a flat substrate position belongs to, and its bit -/
+theorem slot_key (lv : List (Name × Nat)) (bs seen : List Name) (l : Nat) (c : Name) (i : Nat)
+    (hg : (slotsFlat lv bs)[l]? = some (Slot.pos c i)) :
+    ∃ m, (c, m) ∈ idxAux seen bs ∧
+      ∀ w : Label, w.length = (labelsPer lv bs).sum →
+        ∃ u, lookupBlock (idxAux seen bs) (splitLabel w (labelsPer lv bs)) (c, m) = some u ∧
+          u.getD i false = w.getD l false := by
+  induction bs generalizing seen l with
+  | nil => simp [slotsFlat] at hg
+  | cons s ss ih =>
+    rw [slotsFlat_cons] at hg
+    by_cases hgn : l < labelsOf lv s
+    · have hci : c = s ∧ i = l := by
+        rw [List.getElem?_append_left (by simpa using hgn)] at hg
+        simp [List.getElem?_map, List.getElem?_range hgn] at hg
+        exact ⟨hg.1.symm, hg.2.symm⟩
+      obtain ⟨rfl, rfl⟩ := hci
+      refine ⟨seen.count c, by simp [idxAux], ?_⟩
+      intro w hw
+      refine ⟨w.take (labelsOf lv c), by simp [idxAux, lookupBlock, labelsPer, splitLabel], ?_⟩
+      simp [List.getD_eq_getElem?_getD, List.getElem?_take, hgn]
+    · have hg' : (slotsFlat lv ss)[l - labelsOf lv s]? = some (Slot.pos c i) := by
+        rw [List.getElem?_append_right (by simpa using Nat.le_of_not_lt hgn)] at hg
+        simpa using hg
+      obtain ⟨m, hmem, hW⟩ := ih (s :: seen) (l - labelsOf lv s) hg'
+      refine ⟨m, by simp only [idxAux]; exact List.mem_cons_of_mem _ hmem, ?_⟩
+      intro w hw
+      simp only [labelsPer, List.map_cons, List.sum_cons] at hw
+      obtain ⟨u, hu, hbit⟩ := hW (w.drop (labelsOf lv s)) (by simp [labelsPer]; omega)
+      refine ⟨u, ?_, ?_⟩
+      · simp only [idxAux, labelsPer, List.map_cons, splitLabel, lookupBlock]
+        have hne : ¬ ((s, seen.count s) = (c, m)) := by
+          intro e
+          simp only [Prod.mk.injEq] at e
+          have := (mem_idxAux.mp hmem).1
+          rw [← e.1] at this
+          simp at this; omega
+        rw [if_neg hne]
+        exact hu
+      · rw [hbit]
+        simp only [List.getD_eq_getElem?_getD, List.getElem?_drop]
+        congr 2; omega
+
+/-- what a numbered mention of a mass-action rate law reads after the collapse: the total of a
+    labelled compound, the plain name otherwise -/
+theorem key_total {lv : List (Name × Nat)} {r : BRxn} (hm : MassAction lv r) (σ : LName → Rat)
+    {a : Name} {c : Nat} (hmem : (a, c) ∈ idxAux [] r.args) :
+    (if (a, c) ∈ idxAux [] (subsOf r)
+        then sumMap (patterns (labelsOf lv a)) (fun u => σ (assignLabel a u)) else σ (plain a))
+      = totalsEnv lv σ a := by
+  have hc := mem_idxAux.mp hmem
+  simp only [totalsEnv]
+  by_cases hl : labelsOf lv a > 0
+  · have hcnt := hm.order a hl
+    have hin : (a, c) ∈ idxAux [] (subsOf r) := mem_idxAux.mpr (by simp at hc ⊢; omega)
+    rw [if_pos hin, if_pos hl, totalOf_pos _ _ hl]
+    apply sumMap_congr
+    intro u hu
+    have : u ≠ [] := by
+      have := mem_patterns.mp hu
+      intro e; subst e; simp at this; omega
+    simp [assignLabel, this]
+  · have h0 : labelsOf lv a = 0 := by omega
+    rw [if_neg hl]
+    split
+    · simp [h0, patterns, sumMap_single, assignLabel, plain]
+    · rfl
+
+theorem position_flux_full {lv : List (Name × Nat)} {r : BRxn} {lm : List Nat} {rs : List LRxn}
+    (hok : isotopomerReactions lv r lm = .ok rs)
+    (hm : MassAction lv r) (σ : LName → Rat)
+    (hC : ∀ c ∈ subsOf r, labelsOf lv c > 0 → totalOf σ c (labelsOf lv c) ≠ 0)
+    (l : Nat) (hl : l < max (nSub lv r) (nProd lv r)) :
+    (rs.map fun rx => ind ((suffixOf rx).getD l false) * rx.rate σ).sum
+      = enrichOf lv σ ((paddedSubs lv r).getD l Slot.ext) * r.rate (totalsEnv lv σ) := by
+  obtain ⟨_, hfa⟩ := isotopomerReactions_ok hok
+  rw [forall₂_map_sum (fun rx => ind ((suffixOf rx).getD l false) * rx.rate σ)
+    (fun w => ind ((w ++ extOf lv r).getD l false) * listProd ((idxAux [] r.args).map
+      (keyVal σ (idxAux [] (subsOf r)) (splitLabel w (labelsPer lv (subsOf r)))))) hfa
+    (by
+      rintro w rx hw ⟨ps, _, rfl⟩
+      rw [rate_isoRxnOf_keys hm σ w ps hw]
+      rfl)]
+  have hns : nSub lv r = (slotsFlat lv (subsOf r)).length := by rw [slotsFlat_length]; rfl
+  have hrate : r.rate (totalsEnv lv σ) = listProd (r.args.map (totalsEnv lv σ)) := by
+    simp [BRxn.rate, hm.fn_prod]
+  have hargs : r.args.map (totalsEnv lv σ)
+      = (idxAux [] r.args).map (fun key => totalsEnv lv σ key.1) := by
+    have := congrArg (List.map (totalsEnv lv σ)) (idxAux_map_fst [] r.args)
+    simpa [List.map_map, Function.comp_def] using this.symm
+  by_cases hlt : l < nSub lv r
+  · have hsl : (slotsFlat lv (subsOf r))[l]? = some ((slotsFlat lv (subsOf r))[l]'(by omega)) :=
+      List.getElem?_eq_getElem _
+    have hpad : (paddedSubs lv r).getD l Slot.ext = (slotsFlat lv (subsOf r))[l]'(by omega) := by
+      simp only [paddedSubs, List.getD_eq_getElem?_getD]
+      rw [List.getElem?_append_left (by omega), hsl]; rfl
+    cases hslot : (slotsFlat lv (subsOf r))[l]'(by omega) with
+    | ext =>
+      exfalso
+      have := List.getElem_mem (l := slotsFlat lv (subsOf r)) (by omega : l < _)
+      rw [hslot] at this
+      simp [slotsFlat] at this
+    | pos c i =>
+      rw [hslot] at hsl
+      have hcm := slotsFlat_mem (List.mem_of_getElem? hsl)
+      have hcpos : labelsOf lv c > 0 := by omega
+      obtain ⟨m, hkmem, hW⟩ := slot_key lv (subsOf r) [] l c i hsl
+      have hkarg : (c, m) ∈ idxAux [] r.args := by
+        have h1 := mem_idxAux.mp hkmem
+        have h2 := hm.order c hcpos
+        exact mem_idxAux.mpr (by simp at h1 ⊢; omega)
+      have hcount : @List.count (Name × Nat) instBEqOfDecidableEq (c, m) (idxAux [] r.args) = 1 :=
+        count_one_of_nodup_mem (idxAux_nodup [] _) hkarg
+      -- the weight is a function of the block of occurrence (c, m)
+      let val' : Name × Nat → Label → Rat := fun key u =>
+        if key = (c, m) then ind (u.getD i false) * σ (assignLabel key.1 u) else σ (assignLabel key.1 u)
+      let G : List Label → Rat := fun blocks =>
+        listProd ((idxAux [] r.args).map fun a =>
+          match lookupBlock (idxAux [] (subsOf r)) blocks a with
+          | some u => val' a u
+          | none => σ (plain a.1))
+      have hterm : ∀ w ∈ patterns (nSub lv r),
+          ind ((w ++ extOf lv r).getD l false) * listProd ((idxAux [] r.args).map
+            (keyVal σ (idxAux [] (subsOf r)) (splitLabel w (labelsPer lv (subsOf r)))))
+          = G (splitLabel w (labelsPer lv (subsOf r))) := by
+        intro w hw
+        have hwl : w.length = nSub lv r := mem_patterns.mp hw
+        obtain ⟨u0, hu0, hbit⟩ := hW w hwl
+        have hw1 : (w ++ extOf lv r).getD l false = u0.getD i false := by
+          rw [hbit]
+          simp only [List.getD_eq_getElem?_getD]
+          rw [List.getElem?_append_left (by omega)]
+        rw [hw1]
+        have e1 : (idxAux [] r.args).map
+              (keyVal σ (idxAux [] (subsOf r)) (splitLabel w (labelsPer lv (subsOf r))))
+            = (idxAux [] r.args).map (fun a => if a = (c, m) then σ (assignLabel c u0) else
+                keyVal σ (idxAux [] (subsOf r)) (splitLabel w (labelsPer lv (subsOf r))) a) := by
+          apply List.map_congr_left
+          intro a _
+          by_cases e : a = (c, m)
+          · subst e; simp [keyVal, hu0]
+          · simp [e]
+        have e2 : G (splitLabel w (labelsPer lv (subsOf r)))
+            = listProd ((idxAux [] r.args).map (fun a => if a = (c, m)
+                then ind (u0.getD i false) * σ (assignLabel c u0) else
+                keyVal σ (idxAux [] (subsOf r)) (splitLabel w (labelsPer lv (subsOf r))) a)) := by
+          show listProd _ = listProd _
+          congr 1
+          apply List.map_congr_left
+          intro a _
+          by_cases e : a = (c, m)
+          · subst e; simp [hu0, val']
+          · simp only [if_neg e, keyVal, val']
+            cases lookupBlock (idxAux [] (subsOf r)) (splitLabel w (labelsPer lv (subsOf r))) a <;>
+              simp
+        rw [e1, e2, prod_scale_once_key _ _ hcount]
+      have hsum : ((patterns (nSub lv r)).map fun w =>
+            ind ((w ++ extOf lv r).getD l false) * listProd ((idxAux [] r.args).map
+              (keyVal σ (idxAux [] (subsOf r)) (splitLabel w (labelsPer lv (subsOf r)))))).sum
+          = ((patterns (nSub lv r)).map fun w => G (splitLabel w (labelsPer lv (subsOf r)))).sum := by
+        congr 1
+        exact List.map_congr_left hterm
+      rw [hsum]
+      have hs := sum_split (labelsPer lv (subsOf r)) G
+      simp only [sumMap, nSub] at hs ⊢
+      rw [hs]
+      have hck := collapse_keys (idxAux [] (subsOf r)) (idxAux_nodup [] _)
+        (fun key => labelsOf lv key.1) (idxAux [] r.args) val' (fun key => σ (plain key.1)) (by
+          rintro ⟨a, c'⟩ hmem hpos
+          have hc := mem_idxAux.mp hmem
+          have := hm.order a hpos
+          exact count_one_of_nodup_mem (idxAux_nodup [] _) (mem_idxAux.mpr (by simp at hc ⊢; omega)))
+      rw [idxAux_sz] at hck
+      show sumBlocks (labelsPer lv (subsOf r)) (fun blocks =>
+        listProd ((idxAux [] r.args).map fun a =>
+          match lookupBlock (idxAux [] (subsOf r)) blocks a with
+          | some u => val' a u
+          | none => σ (plain a.1))) = _
+      refine hck.trans ?_
+      rw [hpad, hslot]
+      simp only [enrichOf]
+      -- evaluate the factors
+      rw [List.map_congr_left (g := fun a => if a = (c, m) then margOf σ c (labelsOf lv c) i
+              else totalsEnv lv σ a.1) (by
+        rintro ⟨a, c'⟩ hmem
+        by_cases e : (a, c') = (c, m)
+        · rw [if_pos e]
+          cases e
+          rw [if_pos hkmem, margOf_eq]
+          apply sumMap_congr
+          intro u hu
+          have : u ≠ [] := by
+            have := mem_patterns.mp hu
+            intro e; subst e; simp at this; omega
+          simp [val', assignLabel, this]
+        · rw [if_neg e]
+          have hv : val' (a, c') = fun u => σ (assignLabel a u) := by
+            funext u; simp only [val', if_neg e]
+          have hk := key_total hm σ hmem
+          by_cases hin : (a, c') ∈ idxAux [] (subsOf r)
+          · rw [if_pos hin] at hk ⊢
+            rw [hv, hk]
+          · rw [if_neg hin] at hk ⊢
+            exact hk)]
+      have hrep := prod_replace_once_key (idxAux [] r.args) (c, m) hcount
+        (margOf σ c (labelsOf lv c) i) (fun key => totalsEnv lv σ key.1)
+      have hbc : totalsEnv lv σ c = totalOf σ c (labelsOf lv c) := by simp [totalsEnv, hcpos]
+      have hne := hC c hcm.1 hcpos
+      simp only [hbc] at hrep
+      rw [hrate, hargs, Rat.div_def]
+      generalize listProd ((idxAux [] r.args).map fun a =>
+        if a = (c, m) then margOf σ c (labelsOf lv c) i else totalsEnv lv σ a.1) = P at hrep ⊢
+      generalize listProd ((idxAux [] r.args).map fun key => totalsEnv lv σ key.1) = Q at hrep ⊢
+      generalize totalOf σ c (labelsOf lv c) = T at hrep hne ⊢
+      generalize margOf σ c (labelsOf lv c) i = Mg at hrep ⊢
+      have : P = P * T * T⁻¹ := by
+        rw [Rat.mul_assoc, Rat.mul_inv_cancel _ hne, Rat.mul_one]
+      rw [this, hrep]; grind
+  · -- an external position: always labelled
+    have hpad : (paddedSubs lv r).getD l Slot.ext = Slot.ext := by
+      simp only [paddedSubs, List.getD_eq_getElem?_getD]
+      rw [List.getElem?_append_right (by omega)]
+      cases h : (List.replicate ((slotsFlat lv (prodsOf r)).length - (slotsFlat lv (subsOf r)).length)
+        Slot.ext)[l - (slotsFlat lv (subsOf r)).length]? with
+      | none => rfl
+      | some s =>
+        have := List.mem_of_getElem? h
+        simp at this; simp [this.2]
+    rw [hpad]
+    simp only [enrichOf]
+    have hone : ∀ w ∈ patterns (nSub lv r), ind ((w ++ extOf lv r).getD l false) = 1 := by
+      intro w hw
+      have hwl : w.length = nSub lv r := mem_patterns.mp hw
+      simp only [List.getD_eq_getElem?_getD]
+      rw [List.getElem?_append_right (by omega)]
+      simp only [extOf, externalLabels, List.getElem?_replicate]
+      have : l - w.length < nProd lv r - nSub lv r := by omega
+      simp [this, ind]
+    have := collapse_full hok hm σ
+    rw [forall₂_map_sum (fun rx => rx.rate σ)
+      (fun w => listProd ((idxAux [] r.args).map
+        (keyVal σ (idxAux [] (subsOf r)) (splitLabel w (labelsPer lv (subsOf r)))))) hfa
+      (by rintro w rx hw ⟨ps, _, rfl⟩; exact rate_isoRxnOf_keys hm σ w ps hw)] at this
+    rw [← this, Rat.one_mul]
+    congr 1
+    apply List.map_congr_left
+    intro w hw
+    rw [hone w hw, Rat.one_mul]
+
 /-! ### the linear mapper's reaction list, unfolded -/
 
 theorem dupList_subs (st : List (Name × Int)) :
@@ -652,7 +999,7 @@ theorem linRxnsOf_eq (lv : List (Name × Nat)) (r : BRxn) (lm : List Nat)
     (hlab : ∀ c ∈ subsOf r ++ prodsOf r, (lv.lookup c).isSome) :
     linRxnsOf (isosOf lv) baseRxns r.name lm =
       if lm.length < max (nSub lv r) (nProd lv r) then .error .valueError
-      else (mapSubstratesToLabelmap (paddedSubs lv r) lm).map
+      else (mapLabelmapToSubstrates (paddedSubs lv r) lm).map
         (fun res => slotRxns r.name 0 res (paddedProds lv r)) := by
   have hs := slotsOf_isosOf lv (subsOf r) (fun c hc => hlab c (List.mem_append_left _ hc))
   have hp := slotsOf_isosOf lv (prodsOf r) (fun c hc => hlab c (List.mem_append_right _ hc))
@@ -682,7 +1029,7 @@ theorem linRxnsOf_eq (lv : List (Name × Nat)) (r : BRxn) (lm : List Nat)
   · rw [if_pos hlt, if_pos hlt]
   · rw [if_neg hlt, if_neg hlt]
     simp only []
-    cases mapSubstratesToLabelmap (paddedSubs lv r) lm with
+    cases mapLabelmapToSubstrates (paddedSubs lv r) lm with
     | error e => rfl
     | ok res => rfl
 
@@ -1126,10 +1473,10 @@ theorem getD_paddedProds (lv : List (Name × Nat)) (r : BRxn) (q : Nat) :
       have := List.mem_of_getElem? h
       simp at this; simp [this.2]
 
-/-- the linear side (involutive map): the derivative of position `(x,i)`, as enrichments of the
+/-- the linear side (permutation map): the derivative of position `(x,i)`, as enrichments of the
     documented sources -/
 theorem lin_marginal_as_enrich (lv : List (Name × Nat)) (r : BRxn) (lm : List Nat)
-    (hinv : InvolutiveMap (max (nSub lv r) (nProd lv r)) lm)
+    (hpm : PermMap (max (nSub lv r) (nProd lv r)) lm)
     (E : Slot → Rat) (v C : Name → Rat) (x : Name) (i : Nat) :
     linRhs (slotRxns r.name 0 (documentedSources (paddedSubs lv r) lm) (paddedProds lv r)) E v C
         (Slot.pos x i)
@@ -1138,10 +1485,9 @@ theorem lin_marginal_as_enrich (lv : List (Name × Nat)) (r : BRxn) (lm : List N
               if (slotsFlat lv (prodsOf r)).getD h Slot.ext = Slot.pos x i
                 then E ((paddedSubs lv r).getD (lm.getD h 0) Slot.ext) else 0).sum
             - ((slotsFlat lv (subsOf r)).count (Slot.pos x i) : Nat) * E (Slot.pos x i)) := by
-  have hN := hinv.1.length
-  have hinv' : InvolutiveMap (paddedSubs lv r).length lm := by rw [paddedSubs_length]; exact hinv
-  have hres := mapSubstratesToLabelmap_involutive _ lm hinv'
-  have hperm := mapSubstratesToLabelmap_perm_count _ lm hinv'.1 hres
+  have hN := hpm.length
+  have hpm' : PermMap (paddedSubs lv r).length lm := by rw [paddedSubs_length]; exact hpm
+  have hperm := documentedSources_perm _ lm hpm'
   have hlenres : (documentedSources (paddedSubs lv r) lm).length = (paddedProds lv r).length := by
     simp [documentedSources, hN, paddedProds_length]
   rw [linRhs_slotRxns, sum_pairTerm_general E (v r.name) C (Slot.pos x i) (by simp) _ _ hlenres]
@@ -1178,19 +1524,19 @@ theorem lin_marginal_as_enrich (lv : List (Name × Nat)) (r : BRxn) (lm : List N
 
 theorem marginal_full {lv : List (Name × Nat)} {r : BRxn} {lm : List Nat} {rs : List LRxn}
     (hok : isotopomerReactions lv r lm = .ok rs)
-    (hm : MassAction lv r) (hd : DistinctOccurrences lv r)
-    (hinv : InvolutiveMap (max (nSub lv r) (nProd lv r)) lm) (σ : LName → Rat)
+    (hm : MassAction lv r)
+    (hpm : PermMap (max (nSub lv r) (nProd lv r)) lm) (σ : LName → Rat)
     (hC : ∀ c ∈ subsOf r, labelsOf lv c > 0 → totalOf σ c (labelsOf lv c) ≠ 0)
     (C : Name → Rat) (x : Name) (i : Nat) :
     linRhs (slotRxns r.name 0 (documentedSources (paddedSubs lv r) lm) (paddedProds lv r))
         (enrichOf lv σ) (fun _ => r.rate (totalsEnv lv σ)) C (Slot.pos x i)
       = (1 / C x) * ((labelledAt x (labelsOf lv x) i).map (rhsOf rs σ)).sum := by
-  have hN := hinv.1.length
+  have hN := hpm.length
   have hwf : nProd lv r ≤ lm.length := by rw [hN]; exact Nat.le_max_right _ _
-  rw [lin_marginal_as_enrich lv r lm hinv, iso_marginal_as_flux hok hwf]
+  rw [lin_marginal_as_enrich lv r lm hpm, iso_marginal_as_flux hok hwf]
   have hflux : ∀ l, l < max (nSub lv r) (nProd lv r) →
       fluxAt rs σ l = enrichOf lv σ ((paddedSubs lv r).getD l Slot.ext) * r.rate (totalsEnv lv σ) :=
-    fun l hl => position_flux hok hm hd σ hC l hl
+    fun l hl => position_flux_full hok hm σ hC l hl
   -- production
   have hprod : ((List.range (slotsFlat lv (prodsOf r)).length).map fun h =>
         if (slotsFlat lv (prodsOf r)).getD h Slot.ext = Slot.pos x i
@@ -1207,7 +1553,7 @@ theorem marginal_full {lv : List (Name × Nat)} {r : BRxn} {lm : List Nat} {rs :
       have := List.mem_range.mp hh
       rw [slotsFlat_length] at this
       exact Nat.lt_of_lt_of_le this (Nat.le_max_right _ _)
-    rw [hflux _ (hinv.1.getD_lt hh')]
+    rw [hflux _ (hpm.getD_lt hh')]
     split <;> simp
   -- consumption
   have hcons : ((List.range (slotsFlat lv (subsOf r)).length).map fun g =>
